@@ -670,8 +670,11 @@ mutual
       | .ok (vs, n) => .ok { w with work := vs, nextTmp := n }
       | .error err => .error err
     | .count name =>
-      .ok { w with work := [.node (.tmp w.nextTmp) true [(name, .atom (.int w.work.length))]],
-                   nextTmp := w.nextTmp + 1 }
+      -- no input document: no output document (MongoDB's `$count`)
+      if w.work.isEmpty then .ok { w with work := [] }
+      else
+        .ok { w with work := [.node (.tmp w.nextTmp) true [(name, .atom (.int w.work.length))]],
+                     nextTmp := w.nextTmp + 1 }
     | .facet branches =>
       match runBranches D sem { w with stack := w.work :: w.stack } branches with
       | .ok w' =>
@@ -824,6 +827,8 @@ mutual
         | .node _ true kids => .facet (parseBranches (loc ++ [0]) 0 kids)
         | _ => .fail .unmodelled
       else .fail .unmodelled
+    -- `process_pipeline`: a stage document with no or several operators is rejected
+    | .node _ true _ => .fail .opFail
     | _ => .fail .unmodelled
   def parseStages (loc : List Nat) (i : Nat) : Kids → List Stage
     | [] => []
